@@ -36,7 +36,11 @@ def masks (fix7b : Bool) : List NPat → List (List Bool)
 mutual
 /-- `ValuePattern.clone` and its overrides; state = next fresh object id -/
 def cloneV : VPat → Nat → VPat × Nat
-  | .var _ name true canNone check, k => (.var k name true canNone check, k + 1)       -- Var.clone
+  -- Var.clone: a new `Var` object with the same name.  Object identity of a *named* pattern is immaterial
+  -- (it is bound by name; after repair C06-F2 a checked one is also recorded per object, with the same
+  -- checker and value), so the model keeps its id; an unnamed `Var` gets a fresh id.
+  | .var id name true canNone check, k =>
+    if name.isSome then (.var id name true canNone check, k) else (.var k name true canNone check, k + 1)
   | .var _ name false _ check, k => (.var k name false false check, k + 1)            -- ValuePattern.clone drops can_match_none
   | .any, k => (.any, k)                                                              -- AnyValue.clone returns self
   | .const _ c, k => (.const k c, k + 1)
@@ -156,7 +160,7 @@ def findOrInput (id : Nat) : List NPat → Nat → Option (Nat × Nat)
     | some j => some (i, j)
     | none => findOrInput id rest (i + 1)
 
-/-- `clone_output` of proposed repair C06-F7c: a returned OR value is the copy already made for the node
+/-- `clone_output` of repair C06-F7c (/repo 531a7ae): a returned OR value is the copy already made for the node
 input it is (`new_node.inputs[1 - index if swap else index]`); everything else is cloned -/
 def cloneOutput (fix7c : Bool) (p : GPat) (newNodes : List NPat) (swaps : List Bool) (vp : VPat) (k : Nat) :
     VPat × Nat :=
@@ -195,8 +199,9 @@ def copyGraph (fix7a : Bool) (p : GPat) (swaps : List Bool) (fix7c : Bool) : Exc
     let q : GPat := { p with nodes := nodes, outputs := outs }
     if q.ctorOk then .ok q else .error .notImplemented
 
-/-- `GraphPattern.commute`; `fix7b`, `fix7c` select the repaired revisions (C06-F7b committed; C06-F7c proposed) -/
-def commute (fix7a : Bool) (p : GPat) (fix7b : Bool := true) (fix7c : Bool := false) :
+/-- `GraphPattern.commute`; `fix7b`, `fix7c` select the repaired revisions (/repo 3353ca3, 531a7ae), the defaults;
+`false` restates the code before the repair -/
+def commute (fix7a : Bool) (p : GPat) (fix7b : Bool := true) (fix7c : Bool := true) :
     Except CommuteErr (List GPat) :=
   (masks fix7b p.nodes).mapM (fun m => copyGraph fix7a p m fix7c)
 
